@@ -69,11 +69,15 @@ def cmp_cov(ca, cb, sd, rtol=RTOL, label=None):
     return None
 
 
-def perturb(r):
-    """twin of a run: initial Taylor coefficients + 2^-48, first step size * (1 + 2^-48).  The difference between
-    a run and its twin measures how strongly the adaptive solve amplifies rounding-size perturbations."""
-    e = Fr(1, 2 ** 48)
-    r["tcoeffs"] = [[x + e for x in row] for row in r["tcoeffs"]]
+def perturb(r, rng):
+    """twin of a run: initial Taylor coefficients * (1 + k 2^-48) +- 2^-50 (random k in -4..4), first step size *
+    (1 + 2^-48).  The difference between a run and its twin measures how strongly the adaptive solve amplifies
+    rounding-size perturbations (cancellation in the residual that drives the error estimate and the dynamic scale,
+    smoothing back to diffuse initial conditions)."""
+    def wiggle(x):
+        return x * (1 + Fr(rng.choice([-4, -3, -2, -1, 1, 2, 3, 4]), 2 ** 48)) + Fr(rng.choice([-1, 1]), 2 ** 50)
+
+    r["tcoeffs"] = [[wiggle(x) for x in row] for row in r["tcoeffs"]]
     r["adaptive"] = dict(r["adaptive"], dt0=float(r["adaptive"]["dt0"]) * (1 + 2.0 ** -48))
     return r
 
@@ -122,8 +126,17 @@ def as_kind(c, kind):
     return c2
 
 
-def tame(c, fac=4):
-    c["f"] = [[[Fr(cf) / fac, ex] for cf, ex in p] for p in c["f"]]
+def bound_field(c, horizon):
+    """Scale the polynomial field by one common factor such that the solution provably stays in |u^(i)| <= R on the
+    horizon (no finite-time blow-up, hence no adaptive solve that never terminates)."""
+    R = Fr(4 if c["ord"] == 1 else 6)
+    S = max(sum(abs(Fr(cf)) * R ** sum(ex) for cf, ex in p) for p in c["f"])
+    fac = min(Fr(1), Fr(2) / (Fr(horizon) * S)) if S > 0 else Fr(1)
+    # a power of two keeps the coefficients exactly representable
+    e = 0
+    while Fr(1, 2 ** e) > fac:
+        e += 1
+    c["f"] = [[[Fr(cf) / 2 ** e, ex] for cf, ex in p] for p in c["f"]]
     return c
 
 
@@ -232,11 +245,15 @@ def gen_scalar_jacobian(ck, quick):
 
 # ------------------------------------------------------------------ the comparisons
 def run(ck, runs):
-    payload = {"cases": [gen.floatable(r) for r in runs], "workers": 14}
+    payload = {"cases": [gen.floatable(r) for r in runs], "workers": 14, "budget_s": 330 if ck.tier == "quick" else 6000}
     return lib.run_impl("c14_impl.py", payload, timeout=3000)["results"]
 
 
 def check_errors(ck, c, rs, pair, mode):
+    for r in rs:
+        if r.get("timeout"):
+            ck.hist.setdefault("runs_killed_by_time_budget", {"n": 0})["n"] += 1
+            return True
     for r in rs:
         if "error" in r:
             ck.report(f"C14.{pair}.{mode}.exception", f"implementation raised {r['error']}", {"case": gen.jsonable(c), "tb": r.get("tb")})
@@ -419,7 +436,7 @@ def adaptive_pair(ck, n):
                 c["std"] = c["std"][:4]
             if c["strat"] == "fixedinterval":
                 c["strat"] = "fixedpoint"
-        tame(c)
+        bound_field(c, 1)
         c["base"] = None
         c["damp"] = Fr(0)
         c["routine"] = "adaptive"
@@ -432,7 +449,7 @@ def adaptive_pair(ck, n):
             r = as_kind(c, "dense" if kind == "twin" else kind)
             r.pop("jac")
             if kind == "twin":
-                perturb(r)
+                perturb(r, ck.rng)
             runs.append(r)
         probs.append(c)
     res = yield runs
@@ -464,13 +481,14 @@ def adaptive_pair(ck, n):
         key = "<1e3" if max(nm.max(), nc) < 1e3 * 2.0 ** -48 else "<1e6" if max(nm.max(), nc) < 1e6 * 2.0 ** -48 else ">=1e6"
         ck.hist["adaptive_noise_amplification(twin/2^-48)"][key] = ck.hist["adaptive_noise_amplification(twin/2^-48)"].get(key, 0) + 1
         K = 50.0
-        p = cmp_mean(md, mi, sd, rtol=1e-9, label="adaptive dense-iso mean (beyond 50x twin noise)", extra=K * nm[None, :])
+        # two different floating-point programs drive the step-size controller: 1e-6 + 50 x the twin's deviation
+        p = cmp_mean(md, mi, sd, rtol=1e-6, label="adaptive dense-iso mean (beyond 50x twin noise)", extra=K * nm[None, :])
         if p:
             ck.report(f"C14.dense-iso.{mode}.mean", f"{describe(c)}: {p} [twin noise {nm.max():.2e}]", rep)
-        p = cmp_cov(Pd, Pi, sd, rtol=1e-9 + K * nc, label="adaptive dense-iso cov (beyond 50x twin noise)")
+        p = cmp_cov(Pd, Pi, sd, rtol=1e-6 + K * nc, label="adaptive dense-iso cov (beyond 50x twin noise)")
         if p:
             ck.report(f"C14.dense-iso.{mode}.cov", f"{describe(c)}: {p} [twin noise {nc:.2e}]", rep)
-        if sd_.shape != si.shape or not np.all(np.abs(sd_ - si) <= (1e-8 + K * ns) * np.abs(sd_) + sfloor(sd_, si)):
+        if sd_.shape != si.shape or not np.all(np.abs(sd_ - si) <= (1e-6 + K * ns) * np.abs(sd_) + sfloor(sd_, si)):
             ck.report(f"C14.dense-iso.{mode}.scale", f"{describe(c)}: output scales {sd_.ravel().tolist()} vs {si.ravel().tolist()}", rep)
 
 
@@ -478,8 +496,8 @@ def main():
     ck = lib.Check("C14")
     pr = ck.run_proof()
     quick = ck.tier == "quick"
-    phases = [ts0_three(ck, 12 if quick else 150), ts1_decoupled(ck, 14 if quick else 150),
-              ts1_scalar_jacobian(ck, 14 if quick else 150), adaptive_pair(ck, 12 if quick else 100)]
+    phases = [ts0_three(ck, 10 if quick else 150), ts1_decoupled(ck, 10 if quick else 150),
+              ts1_scalar_jacobian(ck, 10 if quick else 150), adaptive_pair(ck, 10 if quick else 100)]
     batches = [next(ph) for ph in phases]            # every phase first yields its runs ...
     res = run(ck, [r for b in batches for r in b])    # ... all runs are dispatched together ...
     k = 0
@@ -500,7 +518,8 @@ def main():
               "block-diagonal dynamic-mode values are NOT compared with dense; (2) TS1 on componentwise-decoupled problems: block-diagonal = d scalar "
               "dense solves (means, covariances, per-dimension scales; optional per-dimension base scales); (3) TS1 on problems whose Jacobian is "
               "c_i(t) I (or d=1, nonlinear): isotropic = dense; (4) adaptive solve_adaptive_save_at with the real error estimate and controllers: "
-              "dense vs isotropic: identical num_steps, values, scales; non-trivial: d>1 (1), all (2,3), more than 3 steps (4); distinct by full input")
+              "dense vs isotropic: identical num_steps; values and scales within 1e-6 + 50x the deviation of a rounding-size-perturbed twin of the dense run "
+              "(the two floating-point programs drive the controller through a cancellation-prone residual); non-trivial: d>1 (1), all (2,3), more than 3 steps (4); distinct by full input")
 
 
 if __name__ == "__main__":
